@@ -246,16 +246,18 @@ deriving DecidableEq, Repr
 structure OSchema where
   s : Schema                 -- `s.shape`: the Shape map (field id ↦ member identity)
   exc : Option Loc           -- PartialExceptions (a `vals` cell of field ids)
+  req : Option Loc           -- RequiredKeys (since /repo 75cf747): the fields `Required` made mandatory
   v : ObjV
 deriving DecidableEq, Repr
 
 structure OObs where
   base : Obs
   exc : Option (List Nat)
+  req : Option (List Nat)
   v : ObjV
 deriving DecidableEq, Repr
 
-def obsO (h : Loc → Option Cell) (x : OSchema) : OObs := ⟨obs h x.s, readVals h x.exc, x.v⟩
+def obsO (h : Loc → Option Cell) (x : OSchema) : OObs := ⟨obs h x.s, readVals h x.exc, readVals h x.req, x.v⟩
 
 abbrev ShapeV := List (Nat × Loc)
 
@@ -287,30 +289,42 @@ inductive ObjOp
   | omitKeys (ks : List Nat)                    -- Omit / MustOmit
   | partialAll                                  -- Partial()
   | partialKeys (ks : List Nat)                 -- Partial(keys): exceptions = Shape keys minus keys
-  | requiredAll                                 -- Required()
-  | requiredKeys (ks : List Nat)                -- Required(fields): exceptions = fields
+  | requiredAll                                 -- Required(): RequiredKeys = every Shape key
+  | requiredKeys (ks : List Nat)                -- Required(fields): RequiredKeys = the receiver's ∪ fields
   | mode (m : Nat)                              -- Strict / Strip / Passthrough (withUnknownKeys)
   | catchall (c : Loc)                          -- WithCatchall
   | common (op : Op)                            -- every other chaining call (checks, modifiers, Describe, Refine, …)
 deriving DecidableEq, Repr
 
 /-- `ObjectTyped(newShape)`: a constructor-built object — fresh core internals, the given shape in a fresh map, default
-    unknown-keys mode, not partial, no exceptions.  `cks`: checks carried over by `Extend` on a refined schema. -/
+    unknown-keys mode, not partial, no exceptions, no required keys.  `cks`: checks carried over by `Extend` on a refined schema. -/
 def objConstruct (σ : Store) (kind : Nat) (sh : ShapeV) (cks : List Nat) : Store × OSchema :=
   let (σ1, a) := alloc σ (.arr cks)
   let (σ2, b) := alloc σ1 (.bag [])
   let (σ3, s) := alloc σ2 (.shape sh)
   let (σ4, l) := alloc σ3 (.reg none)
   (σ4, ⟨{ self := l, kind := kind, flags := 0, checks := ⟨a, cks.length, cks.length⟩, bag := some b, values := none,
-          shape := some s, dflt := none }, none, ⟨0, none, false⟩⟩)
+          shape := some s, dflt := none }, none, none, ⟨0, none, false⟩⟩)
 
-/-- Clone + `newObjectInternals` + the field updates of the method; `exc`: what becomes of PartialExceptions -/
-def objDerive (cfg : Cfg) (σ : Store) (recv : OSchema) (v : ObjV) (exc : Option (Option (List Nat))) : Store × OSchema :=
+/-- Clone + `newObjectInternals` (every type-local field copied, the two key-set REFERENCES included) + the field updates of
+    the method: what becomes of PartialExceptions (`exc`) and of RequiredKeys (`req`) — reference kept / a map the call
+    made itself (`make(map[string]bool)`, filled before the result exists) / nil. -/
+def objDerive (cfg : Cfg) (σ : Store) (recv : OSchema) (v : ObjV) (exc req : SlotAct) : Store × OSchema :=
   let r := applyOp cfg σ recv.s (.derive recv.s.flags [] none)
-  match exc with
-  | none => (r.1, ⟨r.2, recv.exc, v⟩)                 -- reference copied
-  | some none => (r.1, ⟨r.2, none, v⟩)                -- nil
-  | some (some ks) => let a := alloc r.1 (.vals ks); (a.1, ⟨r.2, some a.2, v⟩)   -- make(map[string]bool) filled by the call
+  let e := applySlot r.1 recv.exc exc
+  let q := applySlot e.1 recv.req req
+  (q.1, ⟨r.2, e.2, q.2, v⟩)
+
+/-- `ZodObject.Partial(keys)` on RequiredKeys (types/object.go): no exceptions → nil; a non-empty receiver set → a fresh
+    map with the required keys that stay exceptions (Partial wins for the fields it makes optional); otherwise the
+    receiver's reference -/
+def partialReq (reqOld : Option (List Nat)) (newExc : Option (List Nat)) : SlotAct :=
+  match newExc with
+  | none => .drop
+  | some ex => if (reqOld.getD []).isEmpty then .share else .fresh ((reqOld.getD []).filter (fun k => ex.contains k))
+
+/-- set union on key lists (a Go map as a duplicate-free list) -/
+def keyUnion (a b : List Nat) : List Nat := a ++ b.filter (fun k => !a.contains k)
 
 def applyObjOp (cfg : Cfg) (σ : Store) (recv : OSchema) : ObjOp → Option (Store × OSchema)
   | .extend aug keep =>
@@ -320,17 +334,21 @@ def applyObjOp (cfg : Cfg) (σ : Store) (recv : OSchema) : ObjOp → Option (Sto
     (shapePick ((readShape σ.heap recv.s.shape).getD []) ks).map (fun sh => objConstruct σ recv.s.kind sh [])
   | .omitKeys ks =>
     (shapeOmit ((readShape σ.heap recv.s.shape).getD []) ks).map (fun sh => objConstruct σ recv.s.kind sh [])
-  | .partialAll => some (objDerive cfg σ recv { recv.v with isPartial := true } (some none))
+  | .partialAll => some (objDerive cfg σ recv { recv.v with isPartial := true } .drop .drop)
   | .partialKeys ks =>
     let keys := shapeKeys ((readShape σ.heap recv.s.shape).getD [])
-    some (objDerive cfg σ recv { recv.v with isPartial := true }
-      (if ks.isEmpty then some none else some (some (keys.filter (fun k => !ks.contains k)))))
-  | .requiredAll => some (objDerive cfg σ recv { recv.v with isPartial := true } (some none))
+    if ks.isEmpty then some (objDerive cfg σ recv { recv.v with isPartial := true } .drop .drop)
+    else
+      let ex := keys.filter (fun k => !ks.contains k)
+      some (objDerive cfg σ recv { recv.v with isPartial := true } (.fresh ex) (partialReq (readVals σ.heap recv.req) (some ex)))
+  | .requiredAll =>
+    some (objDerive cfg σ recv recv.v .share (.fresh (shapeKeys ((readShape σ.heap recv.s.shape).getD []))))
   | .requiredKeys ks =>
-    some (objDerive cfg σ recv { recv.v with isPartial := true } (if ks.isEmpty then some none else some (some ks)))
-  | .mode m => some (objDerive cfg σ recv { recv.v with mode := m } none)
-  | .catchall c => some (objDerive cfg σ recv { recv.v with catchall := some c } none)
-  | .common op => let r := applyOp cfg σ recv.s op; some (r.1, ⟨r.2, recv.exc, recv.v⟩)
+    if ks.isEmpty then some (objDerive cfg σ recv recv.v .share (.fresh (shapeKeys ((readShape σ.heap recv.s.shape).getD []))))
+    else some (objDerive cfg σ recv recv.v .share (.fresh (keyUnion ((readVals σ.heap recv.req).getD []) ks)))
+  | .mode m => some (objDerive cfg σ recv { recv.v with mode := m } .share .share)
+  | .catchall c => some (objDerive cfg σ recv { recv.v with catchall := some c } .share .share)
+  | .common op => let r := applyOp cfg σ recv.s op; some (r.1, ⟨r.2, recv.exc, recv.req, recv.v⟩)
 
 /-- Object histories: each step applies an op to the `i`-th live schema; a successful result joins the live list. -/
 def runObjHist (cfg : Cfg) : Store → List OSchema → List (Nat × ObjOp) → Store × List OSchema
@@ -353,9 +371,11 @@ structure ObjInput where
   present : List Nat               -- keys present in the input map
 deriving DecidableEq, Repr
 
-/-- field `k` may be absent: the member is optional, or the object is partial and `k` is not an exception -/
+/-- `ZodObject.isFieldOptional`: field `k` may be absent unless `Required` recorded it; then: the object is partial and `k`
+    is not an exception, or the member is optional -/
 def fieldOptional (o : OObs) (memberOpt : Loc → Bool) (k : Nat) (m : Loc) : Bool :=
-  memberOpt m || (o.v.isPartial && !((o.exc.getD []).contains k))
+  if (o.req.getD []).contains k then false
+  else memberOpt m || (o.v.isPartial && !((o.exc.getD []).contains k))
 
 /-- `ZodObject.validateObject` (types/object.go): every shape field present and accepted by its member, or absent and
     optional (`isFieldOptional`); unknown keys: strict → rejected, strip → dropped, passthrough → kept, after validation by
